@@ -65,7 +65,7 @@ def plans(chk, tier, k):
     big = [x for x in A.boundary_sizes(k) if x > 2 * k["granularity"] + 1]
     seed = chk.seed * 101
     quick = tier == "quick"
-    reps1, base1 = (8, 3) if quick else (24, 8)
+    reps1, base1 = (8, 3) if quick else (16, 5)
     out = []
 
     def add(threads, reps, base, nblocks, ops, zeroed, realloc, xfree, sizes, aligns, what):
@@ -74,24 +74,24 @@ def plans(chk, tier, k):
                     "sizes": sizes, "aligns": aligns, "what": what})
 
     # ---- single-threaded (SteadyState is judged here)
-    add(1, reps1, base1, 40, 150 if quick else 600, 30, 30, 0, small, ALIGNS_ALL, "mixed small classes, every alignment")
-    add(1, reps1, base1, 24, 200 if quick else 800, 85, 10, 0, small, [1, 8, 16, 64], "zeroed allocations over recycled memory")
-    add(1, reps1, base1, 24, 200 if quick else 800, 10, 75, 0, small, [16, 32, 64, 256, 4096, 8192], "realloc of over-aligned blocks")
+    add(1, reps1, base1, 40, 150 if quick else 400, 30, 30, 0, small, ALIGNS_ALL, "mixed small classes, every alignment")
+    add(1, reps1, base1, 24, 200 if quick else 500, 85, 10, 0, small, [1, 8, 16, 64], "zeroed allocations over recycled memory")
+    add(1, reps1, base1, 24, 200 if quick else 500, 10, 75, 0, small, [16, 32, 64, 256, 4096, 8192], "realloc of over-aligned blocks")
     add(1, 6 if quick else 12, 2 if quick else 4, 4, 12, 50, 40, 0, big[:5], [16, 4096], "sizes around the trim threshold and above")
     if not quick:
         add(1, 8, 3, 3, 8, 50, 40, 0, big, [16, 8192], "all large sizes")
     # ---- multi-threaded (the lock of GlobalDlMalloc)
     for threads in (2, 4):
         for xfree in (0, 1):
-            add(threads, 4 if quick else 10, 2, 32, 250 if quick else 1200, 35, 30, xfree, small, ALIGNS_ALL,
+            add(threads, 4 if quick else 10, 2, 32, 250 if quick else 700, 35, 30, xfree, small, ALIGNS_ALL,
                 "%d threads, %s" % (threads, "blocks freed by the neighbour thread" if xfree else "blocks freed by their owner"))
-    add(4, 4 if quick else 10, 2, 48, 300 if quick else 1500, 80, 10, 1, small[:12], [1, 16, 64], "4 threads, zeroed small blocks, churn")
-    add(2, 4 if quick else 10, 2, 24, 250 if quick else 1000, 10, 75, 0, small, [32, 64, 4096, 8192], "2 threads, realloc of over-aligned blocks")
+    add(4, 4 if quick else 10, 2, 48, 300 if quick else 800, 80, 10, 1, small[:12], [1, 16, 64], "4 threads, zeroed small blocks, churn")
+    add(2, 4 if quick else 10, 2, 24, 250 if quick else 600, 10, 75, 0, small, [32, 64, 4096, 8192], "2 threads, realloc of over-aligned blocks")
     # history length: few live blocks of the largest non-direct classes, many repetitions - whatever is
     # lost per repetition adds up against an envelope that only knows the (small) peak demand
     large = [x for x in small if x >= 30000] or small[-4:]
     for threads in (4, 2):
-        add(threads, 30 if quick else 120, 2, 4, 60, 20, 20, 1, large, [16, 64],
+        add(threads, 30 if quick else 80, 2, 4, 60, 20, 20, 1, large, [16, 64],
             "%d threads, few large blocks, long history (memory held vs. peak demand)" % threads)
     return out
 
